@@ -16,7 +16,7 @@ ASSUMPTIONS = ['only structural well-formedness is judged here (correctness agai
                'scanner cursors are observed only through reported ranges']
 HTML_ALPHA = ['<', '>', '/', 'a', 'b', '=', '"', "'", ' ', '!', '-']
 HTML_TOK = ['<a', '<b', '</a>', '</b>', '>', '/>', ' x=', '"', "'", '<!--', '-->', '<br', '<script>', '</script>', '<![CDATA[', ']]>',
-            '<?', '?>', 't', ' ', '{', '}', '\\', '</br>', '<br/>']
+            '<?', '?>', 't', ' ', '{', '}', '\\', '</br>', '<br/>', '<script a="', '">']
 CSS_ALPHA = ['a', ':', ';', '{', '}', '"', '\\', ' ', '(', '/', '*', ')']
 CSS_TOK = ['a', 'b:', ' ', ';', '{', '}', ':', '"', "'", '\\', '(', ')', '/*', '*/', '\n', '@m', '::', '$v', 'url(', ',', '-']
 BOUNDS = {'quick': {'char_len': 4, 'tok_len': 3, 'sampled_len': 5, 'stride': 8}, 'thorough': {'char_len': 6, 'tok_len': 4, 'sampled_len': 7, 'stride': 40}}
